@@ -27,9 +27,14 @@ PROPS = {
     },
     "C10": {
         "modules": ["C10", "C10Struct"],
-        "streams": [{"name": "exec", "quick": 2500, "thorough": 180000}, {"name": "codec", "quick": 200, "thorough": 6000}],
+        "streams": [{"name": "exec", "quick": 2500, "thorough": 180000}, {"name": "codec", "quick": 200, "thorough": 6000},
+                    # covenant runs as the state transition function makes them (Covenant::execute with an environment, several
+                    # inputs per transaction, the same spend offered again with other signatures): every run is a function of
+                    # bytecode, transaction and environment alone
+                    {"name": "cov", "quick": 120, "thorough": 4800}],
         # results, step counts and weights - not the cost accounting (executed weight, flattened bytes), which is C11's
-        "projection": "exec_semantics",
+        "projection": "vm_semantics_and_batch_status",
+        "verdict_is_spec": True,
         # the laws proved in Props/C10.lean about the model ARE the specification: an input on which the real
         # executor and the model disagree is an input on which the property fails
         "model_is_spec": True,
@@ -39,8 +44,12 @@ PROPS = {
     },
     "C11": {
         "modules": ["C11", "C11Cost"],
-        "streams": [{"name": "exec", "quick": 2500, "thorough": 180000}, {"name": "weight", "quick": 400, "thorough": 18000}],
-        "projection": "all",
+        "streams": [{"name": "exec", "quick": 2500, "thorough": 180000}, {"name": "weight", "quick": 400, "thorough": 18000},
+                    # several covenants run for one transaction: each starts from a clean machine (a stale loop frame makes the
+                    # next covenant replay instructions its weight never paid for - visible as a changed verdict)
+                    {"name": "cov", "quick": 120, "thorough": 4800}],
+        "projection": "vm_and_batch_status",
+        "verdict_is_spec": True,
         "oracles": ["steps_le_weight"],
         "assumptions": ["real time and memory are tied to the cost model only through the hook counters: steps of the weigher's passes, bytes flattened out of ropes (compared with the model's `flat` on every executed program), the executed table weight (recomputed by the harness per executed instruction and compared with the model's `xw`), and the counting allocator (fact allocation-bounded-by-weight)",
                         "the native stack depth needed to drop a nested value is runtime behaviour; the model bounds the nesting depth (C11_depth_le_weight) and shows the bound is reached (C11_depth_witness): finding F17 stays open"],
